@@ -722,7 +722,8 @@ Qed.
    real writers and readers). *)
 From NV Require Import Base.Percent Text.TextBase Vcf.Values Vcf.Line Vcf.ValuesProofs Vcf.SampleProofs Vcf.LineProofs.
 From NV Require Import Bcf.Ints Bcf.Typed Bcf.Strings Bcf.Genotype Bcf.StringMap Bcf.StringMapProofs Bcf.Record Bcf.RecordProofs Bcf.BlockProofs Bcf.RecordTyped.
-From NV Require Import Bcf.Bridge Bcf.BridgeProofs.
+From NV Require Import Bcf.StringsExact Bcf.Bridge Bcf.BridgeProofs Bcf.ColumnProofs Bcf.BoundedK.
+From NV Require Import Bcf.Ints Bcf.Typed Bcf.Strings Bcf.Genotype Bcf.StringMap Bcf.Record Bcf.RecordTyped.
 Open Scope Z_scope.
 
 (* the block walk with the GT exemption of read_genotype_values (a zero-length GT descriptor is
@@ -801,54 +802,135 @@ Theorem c10_bcf_vcf_agree_partial :
 Proof. exact bcf_vcf_agree_sites. Qed.
 Print Assumptions c10_bcf_vcf_agree_partial.
 
-(* The full statement (records with FORMAT keys and samples) is NOT proved: it needs the
-   per-column counterpart of c10_info_field_typed_roundtrip (the column of a key through
-   enc_fmt_col / enc_gt_col and dec_fmt_kind / dec_gt_col: the series theorems above composed with
-   the header dispatch) and the transposition of the columns into rows (push_col).  It is tested by
-   the `vb` cases (model = implementation on every case, and the oracle compares the contents).
-   fmt_ok: every FORMAT key is defined in the header with an accepted (Number, Type) and every
-   sample holds a value of that kind in BCF's range (a genotype with alleles <= 62 under GT), or is
-   missing (not under GT). *)
-Definition fkind_val (k : name) (kd : fkind) (v : value) : Prop :=
-  if name_eqb k GT then
-    match v with
-    | VGenotype g => g <> [] /\ forall p ph, In (Some p, ph) g -> (p <= 62)%N
-    | _ => False
-    end
-  else
-    bval_ok v /\
-    match kd, v with
-    | FInt true, VInteger _ | FInt false, VIntArr _ | FFloat true, VFloat _ | FFloat false, VFloatArr _
-    | FChar true, VCharacter _ | FChar false, VCharArr _ | FStr true, VString _ | FStr false, VStrArr _ => True
-    | _, _ => False
-    end.
+(* ---- the FORMAT half ---- *)
+(* FORMAT Integer, Number = 1: one Integer per sample, missing samples included, any values in
+   -2^31+8..2^31-1, through the writer's min/max scan (a missing sample counts as 0) and width
+   choice (the scalar counterpart of bcf_int_vector_roundtrip, which was missing) *)
+Theorem bcf_int_scalar_series_roundtrip : forall vals,
+  (forall n, In (Some n) vals -> -2147483640 <= n <= 2147483647) ->
+  exists bs, enc_fmt_int vals = Ok bs /\ dec_fmt_int (length vals) bs = ROk (BScalars vals).
+Proof. exact fmt_int_scalar_roundtrip. Qed.
+Print Assumptions bcf_int_scalar_series_roundtrip.
 
-Definition fmt_ok (h : hctx) (r : vrec) : Prop :=
-  forall j k, nth_error (r_keys r) j = Some k ->
-    exists kd, fk_of h k = Some kd /\
-      forall row, In row (r_samples r) ->
-        match nth j row None with
-        | Some v => fkind_val k kd v
-        | None => name_eqb k GT = false
-        end.
+(* A column of per-sample values of a key other than GT, THROUGH both dispatches: the writer's
+   write_values (header Type, Number = 1 / other; a value of another variant is InvalidInput) and
+   the reader's read_values (header (Number, Type)).  fcol_ok kd c: at least one sample; every cell
+   missing or a value of the kind, in BCF's range and outside string-special-chars (fmt_special);
+   a Float vector series has one present vector.  The series is accepted, self-delimiting, and every
+   sample's value is read back as bnorm kd of it: itself, except that a missing sample of a
+   Character vector series is the vector [missing] and a String vector that is one missing entry is
+   the missing sample (both are the VCF text `.`). *)
+Theorem c10_fmt_column_typed_roundtrip : forall kd c, fcol_ok kd c ->
+  exists vb cells, enc_fmt_col kd c = Ok vb /\ sd true (length c) vb /\
+    dec_fmt_kind kd (length c) vb = ROk cells /\ map value_of_cell cells = map (bnorm kd) c.
+Proof. exact fmt_col_rt. Qed.
+Print Assumptions c10_fmt_column_typed_roundtrip.
 
-Definition c10_bcf_vcf_agree_full_statement : Prop :=
+(* the GT column: every sample a genotype with 1..2^31-1 alleles, allele indices <= 62 *)
+Theorem c10_gt_column_roundtrip : forall c, gtcol_ok c ->
+  exists vb cells, enc_gt_col c = Ok vb /\ sd true (length c) vb /\
+    dec_gt_col (length c) vb = ROk cells /\ map value_of_cell cells = c.
+Proof. exact gt_col_rt. Qed.
+Print Assumptions c10_gt_column_roundtrip.
+
+(* the columns pushed onto the rows one after the other (read_samples: `for (sample, value) in
+   samples.iter_mut().zip(values) { sample.push(value) }`) are the transposed table *)
+Theorem bcf_columns_into_rows : forall A R J (d : A) (F : J -> R -> A) (rows : list R) (jks : list J),
+  fold_left ColumnProofs.push (map (fun jk => map (F jk) rows) jks) (repeat [] (length rows))
+  = map (fun row => map (fun jk => F jk row) jks) rows.
+Proof. exact transpose_table. Qed.
+Print Assumptions bcf_columns_into_rows.
+
+(* A whole record WITH samples as a typed record: bcf_write accepts it and bcf_read returns bback of
+   it -- the record itself with every sample row completed to one value per key (trailing missing
+   values) and bnorm applied per cell.  bcf_samples_dom: site_ok, IDs / FILTERs / INFO keys / FORMAT
+   keys without repetition and in the dictionary, every INFO field info_field_dom (header kind, BCF
+   range), one row per header sample (at least one), every FORMAT key fmt_key_dom (header kind; its
+   column gtcol_ok resp. in the kind and BCF's range).  The excluded class is exactly bcf_special. *)
+Theorem c10_bcf_record_roundtrip : forall strings contigs h rlen r rest,
+  wf strings -> wf contigs -> bcf_samples_dom strings contigs h rlen r -> bcf_special r = false ->
+  (forall sb, enc_site strings contigs (site_of h rlen r) (info_fields r) (Z.of_nat (length (r_keys r))) = Ok sb ->
+     Z.of_nat (length sb) <= 4294967295) ->
+  (forall fb, enc_fields strings (fmt_fields h r) = Ok fb -> Z.of_nat (length fb) <= 4294967295) ->
+  exists bs, bcf_write strings contigs h rlen r = Ok bs /\
+             bcf_read strings contigs h (bs ++ rest) = ROk (bback h r).
+Proof. exact bcf_samples_roundtrip. Qed.
+Print Assumptions c10_bcf_record_roundtrip.
+
+(* c10_bcf_vcf_agree (the former c10_bcf_vcf_agree_full_statement, now proved, and stronger: the
+   BCF writer's acceptance is a conclusion).  ONE RecordBuf, with or without samples: if it is in
+   C09's rec_ok and the VCF writer accepts it, it is in BCF's domain (bcf_dom: site_ok, INFO keys in
+   the dictionary, every INFO field / FORMAT column of its header kind and in BCF's range -- all
+   conditions the BCF writer checks or that are ranges of the format) and it is outside the class
+   string-special-chars (bcf_special r = false, a decidable predicate on the record), then the BCF
+   writer accepts it, the VCF re-read (read_eager, C09's line theorem) and the BCF re-read
+   (bcf_read) both succeed, and the two have the same content (NV.Bcf.Bridge.content). *)
+Theorem c10_bcf_vcf_agree :
   forall fmt_float prs_float (FOK : N -> Prop),
   (forall b, FOK b -> prs_float (fmt_float b) = Some b) ->
   (forall b x, FOK b -> In x (fmt_float b) -> x <> 44 /\ x <> 9 /\ x <> 10 /\ x <> 59 /\ x <> 58)%N ->
   (forall b, FOK b -> fmt_float b <> Values.dot) ->
   (forall b, FOK b -> fmt_float b <> []) ->
-  forall strings contigs h rlen r t bs rest,
+  forall strings contigs h rlen r t rest,
   wf strings -> wf contigs ->
   rec_ok fmt_float FOK h r -> write_line fmt_float h r = Some t ->
-  bcf_write strings contigs h rlen r = Ok bs ->
-  bcf_special r = false ->
-  site_ok strings contigs (site_of h rlen r) (Z.of_nat (length (r_info r))) (Z.of_nat (length (r_keys r))) ->
-  Forall (info_field_ok h) (r_info r) -> fmt_ok h r ->
-  exists a b,
+  bcf_dom strings contigs h rlen r -> bcf_special r = false ->
+  (forall sb, enc_site strings contigs (site_of h rlen r) (info_fields r) (Z.of_nat (length (r_keys r))) = Ok sb ->
+     Z.of_nat (length sb) <= 4294967295) ->
+  (forall fb, enc_fields strings (fmt_fields h r) = Ok fb -> Z.of_nat (length fb) <= 4294967295) ->
+  exists bs a b,
+    bcf_write strings contigs h rlen r = Ok bs /\
     read_eager prs_float h t = Some a /\
     bcf_read strings contigs h (bs ++ rest) = ROk b /\
     content (h_v44 h) a = content (h_v44 h) b.
+Proof. exact bcf_vcf_agree. Qed.
+Print Assumptions c10_bcf_vcf_agree.
+
+(* The class string-special-chars is EXACT.  bcf_special r is true iff some INFO value is
+   info_special (the empty String; a Character vector element '.' or ','; the String vector [""], a
+   String vector element "." or holding ',') or some per-sample value is fmt_special (Character '.'
+   or NUL; String "." or holding NUL; a vector element '.', ',', NUL resp. ".", or holding ',' / NUL).
+   Outside the class every record is read back as written (c10_bcf_vcf_agree).  Inside it: whatever
+   bytes stand where the value of an INFO key / the series of a FORMAT key stands, the typed reader
+   NEVER returns such a value -- BCF has no representation of it at all (the writer stores it, and
+   something else comes back: the *_refuted theorems). *)
+Theorem c10_special_unrepresentable_info : forall kd v vb iv,
+  info_special v = true -> ikind_val kd v -> dec_info_kind kd vb = ROk iv -> value_of_ival iv <> Some v.
+Proof. exact info_special_unrepresentable. Qed.
+Print Assumptions c10_special_unrepresentable_info.
+
+Theorem c10_special_unrepresentable_format : forall kd ns vb cells v,
+  fmt_special v = true -> fkind_match kd v -> dec_fmt_kind kd ns vb = ROk cells ->
+  ~ In (Some v) (map value_of_cell cells).
+Proof. exact fmt_special_unrepresentable. Qed.
+Print Assumptions c10_special_unrepresentable_format.
+
+(* REUSED BUFFERS: read_record_buf into a RecordBuf that still holds ANY previous record (also the
+   record_bufs() iterator) returns what a fresh buffer returns, results and errors alike.  The model
+   bcf_read_into threads the buffer through the reader the way the code does: read_site assigns
+   every site field, read_info clears the buffer's own Info map and inserts field by field (a key
+   already present is DuplicateKey), the samples are assigned.  (Tied to the implementation by the
+   last observation of every `vb` case; the lazy bcf::Record reuse is covered by the `mr` oracle.) *)
+Theorem c10_reused_recordbuf_independent : forall prev strings contigs h bs,
+  bcf_read_into prev strings contigs h bs = bcf_read strings contigs h bs.
+Proof. exact reused_recordbuf_independent. Qed.
+Print Assumptions c10_reused_recordbuf_independent.
+
+(* the bounds of C15's dec_fields_bounded / dec_record_bounded for the block walk the typed reader
+   uses (dec_fields_k / dec_record_k, with the GT exemption): on EVERY byte string n accepted fields
+   cost at least 3 n bytes, exactly n are returned, the blocks lie inside the input *)
+Theorem bcf_dec_fields_k_bounded : forall m mult dup n bs l r,
+  dec_fields_k m mult dup n bs = Some (l, r) ->
+  (3 * n + length r <= length bs)%nat /\ length l = n.
+Proof. exact NV.Bcf.BoundedK.dec_fields_k_bounded. Qed.
+Print Assumptions bcf_dec_fields_k_bounded.
+
+Theorem bcf_dec_record_k_bounded : forall strings contigs hs bs h infos fmts rest,
+  dec_record_k strings contigs hs bs = Some (h, infos, fmts, rest) ->
+  (8 + 3 * length fmts + length rest <= length bs)%nat /\ h_n_sample h <= hs /\
+  length infos = Z.to_nat (h_n_info h) /\ length fmts = Z.to_nat (h_n_fmt h).
+Proof. exact NV.Bcf.BoundedK.dec_record_k_bounded. Qed.
+Print Assumptions bcf_dec_record_k_bounded.
 
 (* non-vacuity: a concrete sites-only record (INFO Integer scalar needing Int16, Integer vector
    with a missing entry, String, Flag; an IUPAC code in REF) goes through both paths, and the
@@ -890,6 +972,38 @@ Example c10_bridge_special_refuted :
     Line.assoc [75; 50]%N (r_info b) = Some None.
 Proof.
   eexists. eexists. eexists. eexists.
+  split; [vm_compute; reflexivity|]. split; [vm_compute; reflexivity|].
+  split; [vm_compute; reflexivity|]. split; [vm_compute; reflexivity|].
+  split; vm_compute; reflexivity.
+Qed.
+
+(* non-vacuity with samples: GT, an Integer scalar and an Integer vector over two samples, the second
+   row shorter than the key list: written, read back as bback (the short row completed) *)
+Definition ex_h2 : hctx :=
+  {| h_v44 := false; h_infos := [];
+     h_formats := [([71; 84]%N, (NCount 1, TString)); ([68; 80]%N, (NCount 1, TInteger));
+                   ([65; 68]%N, (NOther, TInteger))];
+     h_nsamples := 2 |}.
+Definition ex_r2 : vrec :=
+  {| r_chrom := [99]%N; r_pos := 7%N; r_ids := []; r_ref := [65]%N; r_alts := [[67]%N];
+     r_qual := None; r_filters := []; r_info := [];
+     r_keys := [[71; 84]%N; [68; 80]%N; [65; 68]%N];
+     r_samples := [[Some (VGenotype [(Some 0%N, false); (Some 1%N, false)]); Some (VInteger 300);
+                    Some (VIntArr [Some 1; None])];
+                   [Some (VGenotype [(Some 1%N, true); (Some 1%N, true)]); None]] |}.
+
+Example c10_bridge_samples_example :
+  exists strings contigs bs,
+    build_strings [([71; 84]%N, None); ([68; 80]%N, None); ([65; 68]%N, None)] = Some strings /\
+    build_contigs [([99]%N, None)] = Some contigs /\
+    bcf_special ex_r2 = false /\
+    bcf_write strings contigs ex_h2 1 ex_r2 = Ok bs /\
+    bcf_read strings contigs ex_h2 bs = ROk (bback ex_h2 ex_r2) /\
+    r_samples (bback ex_h2 ex_r2)
+    = [[Some (VGenotype [(Some 0%N, false); (Some 1%N, false)]); Some (VInteger 300); Some (VIntArr [Some 1; None])];
+       [Some (VGenotype [(Some 1%N, true); (Some 1%N, true)]); None; None]].
+Proof.
+  eexists. eexists. eexists.
   split; [vm_compute; reflexivity|]. split; [vm_compute; reflexivity|].
   split; [vm_compute; reflexivity|]. split; [vm_compute; reflexivity|].
   split; vm_compute; reflexivity.
